@@ -68,6 +68,9 @@ pub struct SampleQueueSender {
     queue: Arc<SpscRing<MediaSample>>,
     notify: Arc<Notify>,
     pop_lock: Arc<parking_lot::Mutex<()>>,
+    /// Serialises `send`/`try_send`: they take `&self` and the sender is `Sync` (e.g. one
+    /// `Arc<ChannelMediaSink>` feeding two pumps), but the ring is single-producer.
+    push_lock: parking_lot::Mutex<()>,
     closed: Arc<std::sync::atomic::AtomicBool>,
 }
 
@@ -88,6 +91,7 @@ fn sample_queue_channel(capacity: usize) -> (SampleQueueSender, SampleQueueRecei
             queue: queue.clone(),
             notify: notify.clone(),
             pop_lock: pop_lock.clone(),
+            push_lock: parking_lot::Mutex::new(()),
             closed: closed.clone(),
         },
         SampleQueueReceiver {
@@ -109,6 +113,8 @@ impl SampleQueueSender {
         if self.closed.load(std::sync::atomic::Ordering::Acquire) {
             return Err(());
         }
+
+        let _push_guard = self.push_lock.lock();
 
         let sample = match self.queue.push(sample) {
             Ok(()) => {
@@ -145,6 +151,7 @@ impl SampleQueueSender {
             return Err(sample);
         }
 
+        let _push_guard = self.push_lock.lock();
         match self.queue.push(sample) {
             Ok(()) => {
                 #[cfg(rustrtc_verif)]
